@@ -283,3 +283,96 @@ impl Poke for Option<u8> { fn poke_(&mut self, v: u8) { *self = Some(v) } fn pee
 pub fn poke<T: Poke>(t: &mut T, v: u8) { t.poke_(v) }
 pub fn peek<T: Poke>(t: &T) -> u8 { t.peek_() }
 '''
+
+
+# ------------------------------------------------------------------------------------------------ C09
+C09_TYPES = r'''
+/// operand types with an observable clone counter (c) — the user impl records the counters it sees
+#[derive(Debug, PartialEq, Eq)]
+pub struct A { pub v: u8, pub c: u8 }
+#[derive(Debug, PartialEq, Eq)]
+pub struct B { pub v: u8, pub c: u8 }
+impl Clone for A { fn clone(&self) -> A { A { v: self.v, c: self.c.wrapping_add(1) } } }
+impl Clone for B { fn clone(&self) -> B { B { v: self.v, c: self.c.wrapping_add(1) } } }
+impl A { pub fn dup(&self) -> A { A { v: self.v, c: self.c } } }
+impl B { pub fn dup(&self) -> B { B { v: self.v, c: self.c } } }
+impl Mk for A { fn mk<S: Src>(s: &mut S) -> Self { A { v: s.u8(), c: s.u8() & 3 } } }
+impl Mk for B { fn mk<S: Src>(s: &mut S) -> Self { B { v: s.u8(), c: s.u8() & 3 } } }
+/// generic operand (user generics + where-clause mentioning Self must carry over)
+#[derive(Debug, PartialEq, Eq)]
+pub struct G<T> { pub v: u8, pub c: u8, pub t: T }
+impl<T: Copy> Clone for G<T> { fn clone(&self) -> G<T> { G { v: self.v, c: self.c.wrapping_add(1), t: self.t } } }
+impl<T: Copy> G<T> { pub fn dup(&self) -> G<T> { G { v: self.v, c: self.c, t: self.t } } }
+impl Mk for G<u8> { fn mk<S: Src>(s: &mut S) -> Self { G { v: s.u8(), c: s.u8() & 3, t: 7 } } }
+'''
+C09_SUPPORT = r'''
+/// the user's (non-commutative, op-specific) computation
+pub fn uf(k: u8, l: u8, r: u8) -> u8 { l.wrapping_mul(3).wrapping_add(r ^ k.wrapping_mul(37)).wrapping_add(k) }
+'''
+
+
+def c09_prog(name, op, base_l_ref, base_r_ref, rhs_other, req, generic=False, base_assign=False, self_in_where=None):
+    """req: subset of {'bin','assign'}; base_assign: the user impl is `impl OpAssign<R> for A`, req must be {'bin'}"""
+    k = BINOPS.index(op)
+    f = FN[op]
+    LT = "G<T>" if generic else "A"
+    LI = "G<u8>" if generic else "A"
+    RT = "B" if rhs_other else LT
+    RI = "B" if rhs_other else LI
+    ig = "<T: Copy>" if generic else ""
+    if self_in_where is None:
+        self_in_where = not base_l_ref      # `Self` in the where-clause of a `for &T` impl is a recorded finding (see known_findings.jsonl)
+    wh = ((" where Self: Sized" if self_in_where else " where G<T>: Sized") if generic else "")
+    tfield = ", t: self.t" if generic else ""
+    lty = ("&" if base_l_ref else "") + LT
+    rty = ("&" if base_r_ref else "") + RT
+    lst = []
+    if "bin" in req:
+        lst.append(op)
+    if "assign" in req:
+        lst.append(op + "Assign")
+    if base_assign:
+        user = ("#[derive_ex::derive_ex(%s)]\nimpl%s core::ops::%sAssign<%s> for %s%s {\n    fn %s_assign(&mut self, rhs: %s) { self.v = uf(%d, self.v, rhs.v); self.c = (self.c << 4) | rhs.c; }\n}\n"
+                % (op, ig, op, rty, LT, wh, f, rty, k))
+    else:
+        user = ("#[derive_ex::derive_ex(%s)]\nimpl%s core::ops::%s<%s> for %s%s {\n    type Output = %s;\n    fn %s(self, rhs: %s) -> %s { %s { v: uf(%d, self.v, rhs.v), c: (self.c << 4) | rhs.c%s } }\n}\n"
+                % (", ".join(lst), ig, op, rty, lty, wh, "Self" if (generic and not base_l_ref) else LT, f, rty, LT, "G" if generic else "A", k, tfield))
+    wrappers, proofs, replays, harnesses = [], [], [], []
+    def add(h, call, exp_v, exp_c):
+        post = "r.v == %s && r.c == %s" % (exp_v, exp_c)
+        wrappers.append("#[cfg_attr(kani, kani::ensures(|r: &%s| %s))]\npub fn w_%s(x: &%s, y: &%s) -> %s { %s }" % (LI, post, h, LI, RI, LI, call))
+        proofs.append("    #[kani::proof_for_contract(w_%s)]\n    pub fn %s() { let mut s = KaniSrc; let x = <%s as Mk>::mk(&mut s); let y = <%s as Mk>::mk(&mut s); let _r = w_%s(&x, &y); kani::cover!(true); }" % (h, h, LI, RI, h))
+        replays.append('        "%s" => { let x = <%s as Mk>::mk(&mut s); let y = <%s as Mk>::mk(&mut s); let r = w_%s(&x, &y); (%s, format!("x={:?} y={:?} %s -> {:?}; expected v={} c={:#x}", x, y, r, %s, %s)) }' % (h, LI, RI, h, post, h, exp_v, exp_c))
+        harnesses.append(h)
+    ev = "uf(%d, x.v, y.v)" % k
+    if base_assign:
+        # Op from OpAssign: `a op b` == `{ a op= b; a }`, same Rhs as the user impl, no clones
+        rarg = "y" if base_r_ref else "y.dup()"
+        add("bin_from_assign", "core::ops::%s::%s(x.dup(), %s)" % (op, f, rarg), ev, "((x.c << 4) | y.c)")
+        # Output type identity
+        wrappers.append("pub fn output_is_self() where <%s as core::ops::%s<%s>>::Output: SameTy2<%s> {}" % (LI, op, rty.replace(LT, LI).replace("&", "&'static "), LI))
+    else:
+        if "bin" in req:
+            for dl in (False, True):
+                for dr in (False, True):
+                    if dl == base_l_ref and dr == base_r_ref:
+                        continue
+                    la = "x" if dl else "x.dup()"
+                    ra = "y" if dr else "y.dup()"
+                    lc = "(x.c + %d)" % (1 if (dl and not base_l_ref) else 0)
+                    rc = "(y.c + %d)" % (1 if (dr and not base_r_ref) else 0)
+                    add("bin_%s%s" % ("r" if dl else "v", "r" if dr else "v"), "core::ops::%s::%s(%s, %s)" % (op, f, la, ra), ev, "((%s << 4) | %s)" % (lc, rc))
+            wrappers.append("pub fn output_carries_over() where <&'static %s as core::ops::%s<&'static %s>>::Output: SameTy2<%s> {}" % (LI, op, RI, LI))
+        if "assign" in req:
+            if "bin" in req:
+                forms = [(False, "y.dup()"), (True, "y")]
+            else:
+                forms = [(base_r_ref, "y" if base_r_ref else "y.dup()")]
+            for (ar, ra) in forms:
+                lc = "(x.c + %d)" % (0 if base_l_ref else 1)
+                rc = "(y.c + %d)" % (1 if (ar and not base_r_ref) else 0)
+                add("assign_%s" % ("r" if ar else "v"), "{ let mut a = x.dup(); core::ops::%sAssign::%s_assign(&mut a, %s); a }" % (op, f, ra), ev, "((%s << 4) | %s)" % (lc, rc))
+    text = user + "\n" + C09_TYPES + "pub trait SameTy2<B: ?Sized> {} impl<A_: ?Sized> SameTy2<A_> for A_ {}\n" + "\n".join(wrappers) + "\n#[cfg(kani)]\npub mod proofs {\n    use super::*;\n%s\n}\n" % "\n".join(proofs)
+    text += "pub fn replay(h: &str, b: &[u8]) -> (bool, String) {\n    let mut s = VecSrc { v: b.to_vec(), i: 0 };\n    match h {\n%s\n        _ => (true, String::from(\"unknown harness\")),\n    }\n}\n" % "\n".join(replays)
+    desc = "impl %s%s<%s> for %s%s  derive_ex(%s)" % (op, "Assign" if base_assign else "", rty, LT if base_assign else lty, wh, ", ".join(lst) if not base_assign else op)
+    return Prog(name, text, harnesses, {"describe": desc})
